@@ -52,6 +52,9 @@ def worlds(tier: str, stats: Dict[str, Any]) -> Iterator[Any]:
         T = b["T"]
         mir = [[T - i[1], T - i[0], i[2], i[3], i[4]] for i in ms]
         yield dict(mode="file", ranks=[[list(i) for i in ms], mir])
+    for seq in ivworlds.history_sequences():
+        stats["transitions"] += len(seq)
+        yield dict(mode="history", seq=seq)
 
 
 _MENU = None
@@ -77,6 +80,16 @@ def expected(items) -> Any:
 
 
 def check(world) -> Dict[str, Any]:
+    if world["mode"] == "history":
+        viol, execs = [], 0
+        for k, m in enumerate(world["seq"]):
+            fam = [list(i) for i in ivworlds.HISTORY_FAMILY[m]]
+            if not any(i[2] == "M" and i[1] > i[0] for i in fam):
+                fam = fam + [[0, 3, "M", 1, 0]]
+            r = check(dict(mode="file", ranks=[fam]))
+            execs += r["execs"]
+            viol += [(f"history/{s}", dict(d, position_in_history=k, history=world["seq"])) for s, d in r["viol"]]
+        return dict(viol=_dedupe(viol), nontrivial=True, outcome=("history", tuple(world["seq"])), execs=execs, extra_transitions=execs - 1)
     viol: List[Any] = []
     execs = 0
     if world["mode"] == "menu":
